@@ -40,6 +40,13 @@ def fixed_cases():
     out.append((d, b"\r\nGET /only HTTP/1.1\r\nHost: example\r\n\r\n", [[]], False))
     out.append((d, b"POST /form HTTP/1.1\r\nHost: example\r\nContent-Length: 7\r\n\r\na=1&b=2\r\nGET /next HTTP/1.1\r\nHost: example\r\n\r\n", [[], []], False))
     out.append((d, b"POST /form HTTP/1.1\r\nTransfer-Encoding: chunked\r\n\r\n3\r\nabc\r\n0\r\n\r\n\r\n\r\nGET /next HTTP/1.1\r\n\r\n", [[("read", None)], []], False))
+    # every truncation of two short pipelines (the stream ends inside a head, a chunk-size line, chunk data, a chunk
+    # terminator, the trailer section, a Content-Length body): whatever the parser answers must not depend on the reads
+    t1 = b"POST /a HTTP/1.1\r\nTransfer-Encoding: chunked\r\n\r\n5\r\nhello\r\n3;x=y\r\nabc\r\n0\r\nX-T: 1\r\n\r\nGET /n HTTP/1.1\r\n\r\n"
+    t2 = b"POST /b HTTP/1.1\r\nContent-Length: 10\r\n\r\n0123456789GET /c HTTP/1.1\r\nHost: x\r\n\r\n"
+    for t in (t1, t2):
+        for i in range(1, len(t)):
+            out.append((d, t[:i], [[("read", None)], []], True))
     return out
 
 
@@ -69,7 +76,14 @@ def run(ctx):
         for name, chunks in segs:
             # one pair in four goes through the socket interface (SocketUnreader.chunk = recv), the others through IterUnreader
             via_sock = ctx.rng.random() < 0.25
-            obs, rec = lp.run_impl(spec, chunks, progs, sock=via_sock)
+            try:
+                obs, rec = lp.run_impl(spec, chunks, progs, sock=via_sock)
+            except Exception as e:
+                if not via_sock:
+                    raise
+                # the same bytes cannot even be read through the socket interface
+                oracle_fail.append((spec, s, progs, chunks, ["%s: %s" % (type(e).__name__, e)], whole_obs, via_sock))
+                continue
             ctx.hist("source", "socket" if via_sock else "iterator")
             npairs += 1
             nontrivial = len(chunks) > 1 and 100 in obs
